@@ -159,6 +159,7 @@ Section Proofs.
     unfold Model.check. destruct (st_meta_ok st); simpl; [|discriminate].
     destruct (check_trees B blen parse st fuel) as [[et used]|]; [|discriminate].
     intro H. injection H as H0.
+    apply app_eq_nil in H0. destruct H0 as [_ H0].
     apply app_eq_nil in H0. destruct H0 as [Hcp H0]. apply app_eq_nil in H0. destruct H0 as [Het Hpk].
     split; [reflexivity|]. exists used. split; [rewrite Het; reflexivity|].
     unfold check_packs in Hcp. apply app_eq_nil in Hcp. destruct Hcp as [Hix Hcp].
